@@ -79,10 +79,11 @@ def bandnot (t : IT) (a b : Int) : Int := wrap t ((toU t a &&& (2 ^ t.bits - 1 -
 /-- `^a` -/
 def bnot (t : IT) (a : Int) : Int := wrap t ((2 ^ t.bits - 1 - toU t a : Nat) : Int)
 
-/-- `a << n` for a count that cannot be negative (unsigned type or constant) -/
-def shl (t : IT) (a n : Int) : Int := wrap t (a * 2 ^ n.toNat)
+/-- `a << n` for a count that cannot be negative (unsigned type or constant). A count ≥ the width gives 0 (Go), which
+    `wrap t (a * 2 ^ n)` also yields; the case is split off so that evaluation never builds 2 ^ (a 64-bit number). -/
+def shl (t : IT) (a n : Int) : Int := if n ≥ t.bits then 0 else wrap t (a * 2 ^ n.toNat)
 /-- `a >> n` (arithmetic for signed, logical for unsigned: floor division either way) -/
-def shr (_t : IT) (a n : Int) : Int := a / 2 ^ n.toNat
+def shr (t : IT) (a n : Int) : Int := if n ≥ t.bits then (if a < 0 then -1 else 0) else a / 2 ^ n.toNat
 /-- shifts by a count of signed type: a negative count panics -/
 def shlS (t : IT) (a n : Int) : M Int := if n < 0 then throw .shift else pure (shl t a n)
 def shrS (t : IT) (a n : Int) : M Int := if n < 0 then throw .shift else pure (shr t a n)
